@@ -26,8 +26,10 @@ def check_route(rn, o: EntityPosition, d: EntityPosition) -> List[Tuple[str, str
     route = rn.route(o, d)
     bad = []
     if len(route) == 0:
-        if o.geoid != d.geoid:
-            bad.append(("empty_route", f"empty route between different cells {o} -> {d}"))
+        # positions coincide only when both the link and the cell agree: two entities on the same cell of opposite
+        # sides of a street (links u-v and v-u) are different positions and need a way around
+        if tuple(o) != tuple(d):
+            bad.append(("empty_route", "different_cells" if o.geoid != d.geoid else "same_cell_other_link", f"empty route between different positions {tuple(o)} -> {tuple(d)}"))
         return bad
     if route[0].start != o.geoid:
         bad.append(("start", f"route starts on {route[0].start}, origin {o.geoid}"))
@@ -120,7 +122,8 @@ def _c13_shard(shard) -> Dict[str, Any]:
             out["nonempty"] += 1
         if len(out["samples"]) < 2 and o != d:
             out["samples"].append({"network": list(spec), "origin": list(o), "destination": list(d)})
-        for clause, msg in bad:
+        for item in bad:
+            clause, msg = ("|".join(item[:-1]), item[-1])
             out["findings"].append((clause, msg, {"network": list(spec), "origin": list(o), "destination": list(d)}))
     for i, g in enumerate(snaps):
         if i % nparts != part:
@@ -297,8 +300,8 @@ def replay(body) -> int:
             bad = check_snap(rn, rp["snap"])
         else:
             bad = check_route(rn, EntityPosition(*rp["origin"]), EntityPosition(*rp["destination"]))
-        for clause, msg in bad:
-            print(f"{clause}: {msg}")
+        for item in bad:
+            print(f"{item[:-1]}: {item[-1]}")
         hit = bool(bad)
     else:
         g = rn.graph
